@@ -1,6 +1,7 @@
 import AkVerif.Lemmas.GhistReport
 import AkVerif.Lemmas.GhistTotal
 import AkVerif.Lemmas.GhistWindow
+import AkVerif.Lemmas.GhistTags
 /-!
 # C06 — the history report attributes every matching commit to the right build per branch
 
@@ -106,6 +107,40 @@ theorem order_sorted {π} (h : Hist π) :
     Sorted (fun a b : Branch => ltKey a.key b.key) (branchesOf h) :=
   ⟨sortBy_perm _ _,
    sortBy_sorted _ (fun a b => ltKey_asymm a.key b.key) (fun a b c => not_ltKey_trans a.key b.key c.key) _⟩
+
+/-! ## C06.tags — which commits are builds
+
+The driver turns the tag names of a commit into build numbers with `tagBN` (the model of `parse_buildtag` +
+`finalize_build_tag_info`; the literal pieces of the two regular expressions are read from the source).  `Digits ds` :
+`ds` is a non-empty run of decimal digits, `digitsVal ds 0` its value. -/
+
+/-- `build_<n>_release_<major>_<minor>_success` is the tag of build `major.minor.n` of that release line, whatever
+version file the commit has -/
+theorem tag_release (ds dM dm : List Char) (hd : Digits ds) (hM : Digits dM) (hm : Digits dm)
+    (saved : Option (Nat × Nat)) :
+    tagBN saved (Gen.Ghist.tagPre ++ ds ++ Gen.Ghist.tagSep ++ (Gen.Ghist.brPre ++ dM ++ Gen.Ghist.brSep ++ dm) ++
+      Gen.Ghist.tagSuf) =
+      .ok (some ⟨digitsVal dM 0, digitsVal dm 0, digitsVal ds 0, digitsVal ds 0⟩) :=
+  tagBN_release hd hM hm saved
+
+/-- a successful-build tag whose branch part does not name a release line (`build_<n>_master_success`) is build
+`major.minor.n` with major.minor from the version file saved in the commit -/
+theorem tag_saved_version (ds w : List Char) (hd : Digits ds) (hw : parseBranchStr w = none) (M m : Nat) :
+    tagBN (some (M, m)) (Gen.Ghist.tagPre ++ ds ++ Gen.Ghist.tagSep ++ w ++ Gen.Ghist.tagSuf) =
+      .ok (some ⟨M, m, digitsVal ds 0, digitsVal ds 0⟩) :=
+  tagBN_saved hd hw M m
+
+/-- tags that do not start with `build_` or do not end with `_success` do not make a commit a build -/
+theorem tag_ignored (saved : Option (Nat × Nat)) (s : List Char)
+    (h : (¬ ∃ r, s = Gen.Ghist.tagPre ++ r) ∨ (¬ ∃ r, s = r ++ Gen.Ghist.tagSuf)) : tagBN saved s = .ok none :=
+  tagBN_ignored saved s h
+
+example : tagBN none "build_4154_release_10_240_success".toList = .ok (some ⟨10, 240, 4154, 4154⟩) := by decide
+example : tagBN (some (10, 250)) "build_4155_master_success".toList = .ok (some ⟨10, 250, 4155, 4155⟩) := by decide
+example : tagBN (some (3, 4)) "build_5_release_1_2_3_success".toList = .ok (some ⟨3, 4, 5, 5⟩) := by decide
+example : tagBN none "build_7_release_1_1_failed".toList = .ok none := by decide
+example : tagBN none "build_x7_release_1_1_success".toList = .ok none := by decide
+example : tagBN none "v1.7".toList = .ok none := by decide
 
 /-! ## the report and the branches
 
